@@ -432,6 +432,10 @@ def gen_case(rng):
         case['mode'] = 'mapper'
     if case['mode'] == 'router' and len(set(d['name'] for d in decls)) == len(decls) and rng.random() < 0.6:
         add_prefixes(rng, case)
+        if rng.random() < 0.45:
+            add_override(rng, case, structs)
+    if case['mode'] == 'router' and rng.random() < 0.25:
+        add_legacy_path(rng, case, structs)
     if s is not None and rng.random() < 0.2:
         case['history'] = gen_history(rng, case, structs)
     for d in decls:      # the prefix / rename steps above may have removed a name a traverse= pattern uses
@@ -506,6 +510,47 @@ def add_prefixes(rng, case):
                 h['path'] = case['path']
 
 
+def add_override(rng, case, structs):
+    """The including configurator re-declares a route name that an include declared (the documented way to override an
+    add-on's route): the top-level declaration wins, at ITS place in declaration order; usually placed after other routes."""
+    decls = case['decls']
+    nested = [i for i, d in enumerate(decls) if d.get('levels')]
+    if not nested or len(decls) >= 7:
+        return
+    i = rng.choice(nested)
+    d = decls[i]
+    r = rng.random()
+    new = {'name': d['name'], 'static': 0, 'preds': [p for p in d['preds'] if p[0] != 'traverse'] if r < 0.5 else []}
+    # mostly the pattern a request for the nested route would hit as well (so the ORDER of the survivors decides)
+    pre = ''
+    for lv in d['levels']:
+        pre = (pre.rstrip('/') + '/' + lv.lstrip('/')).strip('/')
+    new['pattern'] = (('/' + pre if pre else '') + '/' + d['pattern'].lstrip('/')) if rng.random() < 0.7 else render(*rng.choice(structs))
+    if not traverse_ok(new['pattern'], '/'):
+        pass
+    pos = rng.choice([len(decls)] * 3 + [rng.randrange(len(decls) + 1)])
+    decls.insert(pos, new)
+    if rng.random() < 0.15:
+        # a second include declares the name too (still resolved: the top-level one is a prefix of both)
+        decls.insert(rng.randrange(len(decls) + 1), dict(d, levels=[rng.choice(PREFIXES)]))
+    if rng.random() < 0.08:
+        decls.append(dict(new))        # two top-level declarations of one name: a conflict, nothing is dispatched
+
+
+def add_legacy_path(rng, case, structs):
+    """add_route(name, pattern, path=..): the pre-1.0 spelling; `pattern` wins when both are given"""
+    for d in case['decls']:
+        if rng.random() < 0.4 and not d.get('inherit'):
+            r = rng.random()
+            if r < 0.35:
+                d['path'] = d['pattern']
+                d['nopat'] = 1                      # only path=
+            elif r < 0.9:
+                d['path'] = render(*rng.choice(structs))    # both, different texts (another route's pattern: it steals requests)
+            else:
+                d['path'] = d['pattern']            # both, same text
+
+
 def router_ok(case):
     """Configurator.add_route treats a pattern with a host part as an external (static) URL, and the Router needs a
     PATH_INFO key: such cases are driven through RoutesMapper directly."""
@@ -513,6 +558,12 @@ def router_ok(case):
     if case['path'] is None:
         return False
     for d in case['decls']:
+        if d.get('path') is not None:
+            try:
+                if urlparse(d['path']).hostname:
+                    return False
+            except ValueError:
+                return False
         # add_route takes ONE request_param= / xhr= / traverse= argument
         for kind in ('param', 'xhr', 'traverse', 'header', 'rmethod'):
             if sum(1 for p in d['preds'] if p[0] == kind) > 1:
@@ -615,6 +666,28 @@ def targeted(rng):
                               ('/f/{o}/*rest', '/{o}', '/f/bob/'), ('/d/{s}', '/a/b', '/d/x y'), ('/d/{s}', '/', '/d/1')]:
             yield _case([pat, '/*all'], path, {0: [['traverse', tp]]}, mode=mode)
             yield _case([pat, '/*all'], path, {0: [['const', 1], ['traverse', tp]]}, mode=mode)
+    # an include declares a route, the including configurator declares an overlapping one and then overrides the include's
+    for lv in (['/'], ['/shop']):
+        for between in (['/item/new'], ['/item/new', '/item/{x}/y'], []):
+            for path in ('/item/new', '/item/7', '/shop/item/new', '/shop/item/7'):
+                pre = '' if lv == ['/'] else '/shop'
+                c = _case(['/item/{id}'] + between + [pre + '/item/{id}'], path, mode='router')
+                c['decls'][0]['levels'] = list(lv)
+                c['decls'][-1]['name'] = 'r0'
+                yield c
+                c2 = _case([pre + '/item/{id}'] + between + ['/item/{id}'], path, mode='router')     # override declared FIRST
+                c2['decls'][-1]['levels'] = list(lv)
+                c2['decls'][-1]['name'] = 'r0'
+                yield c2
+    # legacy path=: pattern wins when both are given; path alone is the pattern
+    for pat, legacy, nopat in [('/new/{a}', '/old/{a}', 0), ('/new/{a}', '/new/{a:\\d+}', 0), ('/old/{a}', '/old/{a}', 1),
+                               ('/new/{a}', '/new/{a}', 0)]:
+        for path in ('/new/x', '/old/x', '/new/7'):
+            c = _case([pat, '/{x}/{y}'], path, mode='router')
+            c['decls'][0]['path'] = legacy
+            if nopat:
+                c['decls'][0]['nopat'] = 1
+            yield c
     # listings on the long-lived mapper before a dispatch (static routes must stay unmatchable)
     for mode in ('mapper', 'router'):
         for ops in ([['routes', 1]], [['routes', 1], ['routes', 1]], [['routes', 0], ['has'], ['get', 'r0']]):
